@@ -275,6 +275,7 @@ theorem runFx_sim (a : Actor) (s : St) (f : Fx) (hx : Aux a s) :
     split
     · exact ⟨s, by simp [accepts_cons], rfl, rfl, hx.congr (by rfl) (by rfl) (by rfl)⟩
     · exact ⟨s, by simp [accepts_cons], rfl, rfl, hx⟩
+  | spawnChild c => exact ⟨s, by simp [runFx, accepts_cons, next], rfl, rfl, hx⟩
 
 theorem runFxs_sim (fs : List Fx) (a : Actor) (s : St) (hx : Aux a s) :
     Sim next (FxRel a.phase s.stage) s (runFxs a fs) := by
